@@ -343,7 +343,9 @@ def hals_objective(G, B, V, l1, l2):
 # quick: profiled per kind (CPU s / case at Qops: cp 0.7, hals 0.4, ls 0.5, norm 0.8, reg 1.8, tk 2.5, cmtf 0.7, tkreg 1.9, tr 2.6, spec 0.4, proc 0.2, rep 0.5,
 # tks 4.4, modes 0.02): every kind is kept, the budget is dealt out over the (entry, variant, kind) groups starting at a seed-dependent group
 BUDGET = {"quick": dict(cp=48, hals=20, ls=16, norm=8, reg=4, tk=6, cmtf=5, tkreg=4, tr=5, spec=4, proc=4, rep=8, tks=2, modes=32, loop=72),
-          "thorough": dict(cp=440, hals=200, ls=180, norm=80, reg=50, tk=60, cmtf=50, tkreg=40, tr=50, spec=60, proc=60, rep=80, tks=20, modes=200, loop=300)}
+          # thorough: ~3x the quick budgets (estimated ~370 CPU-s of shards with the per-case costs above; the whole tier is meant to stay below ~12 CPU-min
+          # at VERIF_NPROC=4 including the exact Print-Assumptions pass).  The Python predicates still judge every run of the (5x larger) thorough plan
+          "thorough": dict(cp=140, hals=70, ls=60, norm=28, reg=14, tk=16, cmtf=16, tkreg=10, tr=10, spec=24, proc=24, rep=28, tks=5, modes=100, loop=150)}
 KINDS = ("cp", "hals", "ls", "norm", "reg", "tk", "cmtf", "tkreg", "tr", "spec", "proc", "rep", "tks", "modes", "loop")
 
 
@@ -396,7 +398,7 @@ class Ctx:
         self.n_cp, self.n_hals, self.n_ls = self.n_kind["cp"], self.n_kind["hals"], self.n_kind["ls"]
         self.n_norm, self.n_reg = self.n_kind["norm"], self.n_kind["reg"]
         # the kinds differ a lot in cost: deal the cases out over the shards like cards so that every shard gets its share
-        n_sh = max(1, min(C.NPROC, (len(chosen) + 7) // 8)) if self.tier == "quick" else max(1, (len(chosen) + 15) // 16)
+        n_sh = max(1, min(C.NPROC, (len(chosen) + 7) // 8)) if self.tier == "quick" else max(1, (len(chosen) + 23) // 24)
         self.shard_size = max(1, -(-len(chosen) // n_sh))
         dealt = [c for k in range(n_sh) for c in chosen[k::n_sh]]
         for (kind, lit_fn, payload, descr) in dealt:
@@ -881,6 +883,55 @@ def run_parafac(ctx, n_runs):
             add_norm_case(ctx, entry, inputs, X, wts, fs, zero_col=(it % 5 == 1))
         if it < 3:
             chk.sample(dict(algorithm="parafac", variant=variant, shape=list(shape), rank=rank, errors=[float(e) for e in errs][:6], blocks=len(cap.blocks)))
+    run_parafac_matrix_normalized(ctx)
+
+
+def run_parafac_matrix_normalized(ctx):
+    """ORDER-2 tensors (matrices) with normalize_factors=True: the only configuration in which the MTTKRP goes through khatri_rao's single-matrix
+    shortcut WITH non-trivial weights (after the first normalisation the weights differ from 1; for order >= 3 the general branch applies them).
+    A small deterministic family (own random stream derived from the seed, so the other families see the same draws as without it): svd and random
+    initialisation, history + objective recomputed from the callback iterates + reported == error of the iterate + float block predicates on every
+    block, and the first two blocks of the SECOND sweep (weights already normalised) as exact Coq block cases under their own variant group"""
+    import tensorly as tl
+    from tensorly.decomposition import _cp
+    chk = ctx.chk
+    entry = "tensorly.decomposition.parafac"
+    saved_rng = ctx.rng
+    ctx.rng = random.Random((chk.seed * 1000003 + 7) & 0x7fffffff)
+    try:
+        r = np_rng(ctx.rng)
+        for j, (shape, init, rank, noise) in enumerate([((4, 3), "svd", 2, 0.05), ((5, 4), "random", 2, 0.3), ((3, 5), "svd", 2, 0.3), ((6, 4), "random", 1, 0.05)]):
+            X = lowrank(r, shape, rank, noise)
+            kw = dict(n_iter_max=8, tol=0, return_errors=True, init=init, random_state=r.randint(1 << 30), normalize_factors=True)
+            variant = "normalize+matrix"
+            inputs = dict(shape=list(shape), rank=rank, variant=variant, tensor=X, options=dict(kw), init=None)
+            iterates = []
+
+            def cb(cp, err):
+                wts, fs = cp
+                iterates.append((None if wts is None else np.array(wts, dtype=float), [np.array(f, dtype=float) for f in fs]))
+            attempt(ctx, entry)
+            with Capture() as cap:
+                out = C.call_impl(_cp.parafac, X.copy(), rank, callback=cb, **kw)
+            chk.hist("algorithm", "parafac:" + variant); chk.hist("order", len(shape))
+            if out[0] != "ok":
+                raised(ctx, entry, out[1])
+                continue
+            (_, errs) = out[1]
+            if cap.maxcond > COND_MAX:
+                ctx.skipped_illcond += 1
+                continue
+            history_check(ctx, entry, inputs, errs)
+            if iterates:
+                history_check(ctx, entry, inputs, [cp_objective_rel(X, wts, fs, 0.0) for (wts, fs) in iterates], what="objective recomputed from callback iterates")
+            # float predicate on every block; exact candidates: the two blocks of the second sweep (captured with the normalised weights)
+            blocks = cap.blocks
+            cap.blocks = blocks[2:] + blocks[:2] if len(blocks) >= 4 else blocks
+            add_cp_blocks(ctx, entry, inputs, cap, 0.0, max_blocks=2)
+            cap.blocks = blocks
+            reported_is_objective(ctx, entry, inputs, X, iterates, errs)
+    finally:
+        ctx.rng = saved_rng
 
 
 def run_fixed_modes(ctx, n_runs):
@@ -1239,7 +1290,7 @@ def run_parafac2(ctx, n_runs):
         kw = dict(tol=1e-300, init="random", random_state=r.randint(1 << 30), linesearch=ls, return_errors=True)
         if nonneg: kw["nn_modes"] = [0, 2]
         if "normalize" in variant: kw["normalize_factors"] = True
-        nmax = ((14 if ctx.tier == "quick" else 30) if "active" in variant else 14) if ls else 7
+        nmax = ((14 if ctx.tier == "quick" else 22) if "active" in variant else 14) if ls else 7
         if ls and ctx.tier == "quick":
             # line-search iterations are the iterations 6, 8, 10, 12 (0-based): stopping right after one makes the error reported LAST the one line_step
             # returned, so the check 'final reported error == error of the returned decomposition' judges the accept/reject decision at no extra cost
@@ -1258,7 +1309,9 @@ def run_parafac2(ctx, n_runs):
         objs, ok = [], True
         prefixes = list(range(1, nmax + 1))
         if "active" in variant:      # long runs: the line search starts after sweep 6; a few prefixes spread over the run
-            prefixes = [2, 7, 9, 13, 20, 30]
+            prefixes = [2, 7, 9, 13, 22]
+        elif ls:                     # thorough, line search: every prefix that ends in a line-search iteration and a few ALS ones
+            prefixes = [2, 4, 6, 7, 8, 9, 11, 13]
         if ctx.tier == "quick":
             # quick: a few prefix runs per run instead of all (a sub-sequence of a non-increasing history is non-increasing); with the line search
             # the prefixes that END in a line-search iteration (7, 9, 11) are the informative ones, the final one is judged above without a prefix run
@@ -2068,7 +2121,7 @@ def static_tie(chk, ctx=None):
 
 def PLAN(quick):
     return [(run_corpus, 0), (run_parafac, 80 if quick else 400), (run_fixed_modes, 12 if quick else 36), (run_nn_hals, 18 if quick else 120), (run_hals_nnls, 36 if quick else 300),
-            (run_tucker, 18 if quick else 120), (run_tucker_svd, 6 if quick else 24), (run_parafac2, 16 if quick else 72), (run_p2_linestep, 30 if quick else 120), (run_tr_als, 12 if quick else 80),
+            (run_tucker, 18 if quick else 120), (run_tucker_svd, 6 if quick else 24), (run_parafac2, 16 if quick else 48), (run_p2_linestep, 30 if quick else 120), (run_tr_als, 12 if quick else 80),
             (run_cmtf, 12 if quick else 80), (run_regressors, 12 if quick else 60), (run_stop_rules, 72 if quick else 288), (run_complex, 18 if quick else 90)]
 
 
